@@ -352,9 +352,19 @@ class Lib:
         raise EngineLimit("set operator")
 
     def seq_concat(self, ctx, a, b):
+        other = b if isinstance(a, SymSeq) else a
+
         def as_seq(v):
             if isinstance(v, SymSeq):
                 return v
+            if isinstance(v, PyList):
+                from .loops import kind_of_value
+
+                kind = other.kind
+                arr = z3.K(z3.IntSort(), kind.unwrap(v.items[0])) if v.items else other.arr
+                for k_, it in enumerate(v.items):
+                    arr = z3.Store(arr, k_, kind.unwrap(it))
+                return SymSeq(arr, z3.IntVal(len(v.items)), kind, fresh=True)
             raise EngineLimit("concatenation of a symbolic list with %r" % (v,))
 
         a, b = as_seq(a), as_seq(b)
@@ -921,15 +931,24 @@ class Lib:
             return t
         from .symexec import has_quantifier, PathEnd
 
+        cache = self.e.__dict__.setdefault("_concretize_cache", {})
         for _ in range(limit):
-            s = z3.Solver()
-            s.set("timeout", 2000)
-            for p in ctx.pc:
-                if not has_quantifier(p):
+            qf = [p for p in ctx.pc if not has_quantifier(p)]
+            key = (tuple(p.get_id() for p in qf), t.get_id())
+            if key in cache:
+                v = cache[key][0]
+            else:
+                s = z3.Solver()
+                s.set("timeout", 2000)
+                for p in qf:
                     s.add(p)
-            if s.check() != z3.sat:
+                if s.check() != z3.sat:
+                    v = None
+                else:
+                    v = s.model().eval(t, model_completion=True)
+                cache[key] = (v, qf, t)
+            if v is None:
                 raise PathEnd()
-            v = s.model().eval(t, model_completion=True)
             if not z3.is_int_value(v):
                 raise EngineLimit("cannot concretize %s" % t)
             if ctx.decide(t == v):
